@@ -51,6 +51,7 @@ type ModAnalysis struct {
 	impls  map[string][]*ssa.Function // "IfaceName.Method" cache
 	e      *Enc // for name mangling only
 	localFn map[*ssa.Alloc]*ssa.Function
+	acc     map[*ssa.Function]map[string]bool // structs whose fields a function (transitively) accesses; "*" = anything
 	summary bool // computing function summaries (as opposed to loop mod-sets)
 	why     map[*ssa.Function]map[string]bool
 }
@@ -103,6 +104,7 @@ func newModAnalysis(w *World, cs *Contracts) *ModAnalysis {
 			break
 		}
 	}
+	ma.computeAccess(fns)
 	// ghosts that abstract real state: a function writing the tracked state modifies the ghost
 	for _, f := range fns {
 		ms := ma.fn[f]
@@ -740,4 +742,126 @@ func (ma *ModAnalysis) implsOf(iface *types.Named, method string) []*ssa.Functio
 	sort.Slice(out, func(i, j int) bool { return out[i].String() < out[j].String() })
 	ma.impls[key] = out
 	return out
+}
+
+// computeAccess: which struct types' fields each function touches (reads or writes), transitively.
+// Used for the encapsulation argument of "owns" declarations: a callee that never accesses a
+// field of S cannot reach (hence cannot modify) objects that are reachable only through S.
+func (ma *ModAnalysis) computeAccess(fns []*ssa.Function) {
+	ma.acc = map[*ssa.Function]map[string]bool{}
+	for _, f := range fns {
+		ma.acc[f] = map[string]bool{}
+	}
+	addAll := func(dst, src map[string]bool) bool {
+		ch := false
+		for k := range src {
+			if !dst[k] {
+				dst[k] = true
+				ch = true
+			}
+		}
+		return ch
+	}
+	for iter := 0; iter < 60; iter++ {
+		changed := false
+		for _, f := range fns {
+			a := ma.acc[f]
+			for _, b := range f.Blocks {
+				for _, ins := range b.Instrs {
+					switch x := ins.(type) {
+					case *ssa.FieldAddr:
+						st := x.X.Type().Underlying().(*types.Pointer).Elem()
+						n := ma.e.structName(st)
+						if !a[n] {
+							a[n] = true
+							changed = true
+						}
+					case *ssa.Field:
+						n := ma.e.structName(x.X.Type())
+						if !a[n] {
+							a[n] = true
+							changed = true
+						}
+					}
+					var c *ssa.CallCommon
+					switch x := ins.(type) {
+					case *ssa.Call:
+						c = &x.Call
+					case *ssa.Defer:
+						c = &x.Call
+					case *ssa.Go:
+						c = &x.Call
+					case *ssa.MakeClosure:
+						if cf, ok := x.Fn.(*ssa.Function); ok {
+							if o := ma.acc[cf]; o != nil && addAll(a, o) {
+								changed = true
+							}
+						}
+					}
+					if c == nil {
+						continue
+					}
+					if _, ok := c.Value.(*ssa.Builtin); ok {
+						continue
+					}
+					if c.IsInvoke() {
+						named, _ := c.Value.Type().(*types.Named)
+						if named != nil && named.Obj().Pkg() != nil && inModule(named.Obj().Pkg().Path()) {
+							for _, impl := range ma.implsOf(named, c.Method.Name()) {
+								if o := ma.acc[impl]; o != nil && addAll(a, o) {
+									changed = true
+								}
+							}
+						}
+						continue
+					}
+					callee := c.StaticCallee()
+					if callee == nil {
+						callee = ma.resolveDyn(c.Value)
+					}
+					if callee != nil {
+						if o := ma.acc[callee]; o != nil && addAll(a, o) {
+							changed = true
+						}
+						continue
+					}
+					if fnsR := ma.returnedClosures(c.Value); len(fnsR) > 0 {
+						for _, cf := range fnsR {
+							if o := ma.acc[cf]; o != nil && addAll(a, o) {
+								changed = true
+							}
+						}
+						continue
+					}
+					if target := ma.cs.DynBind[dynName(c.Value)]; target != "" {
+						if fn := ma.w.Funcs[target]; fn != nil {
+							if o := ma.acc[fn]; o != nil && addAll(a, o) {
+								changed = true
+							}
+						}
+						continue
+					}
+					if ma.dynPure(f, c.Value) || ma.isFuncParam(f, c.Value) {
+						continue
+					}
+					if !a["*"] {
+						a["*"] = true
+						changed = true
+					}
+				}
+			}
+		}
+		if !changed {
+			break
+		}
+	}
+}
+
+// accesses reports whether fn (transitively) touches fields of the struct named st.
+func (ma *ModAnalysis) accesses(fn *ssa.Function, st string) bool {
+	a := ma.acc[fn]
+	if a == nil {
+		return true
+	}
+	return a["*"] || a[st]
 }
